@@ -216,6 +216,16 @@ func (x *Exec) VerifyFunction(fn *ssa.Function, c *Contract) {
 	// vacuity guard: the assumptions at entry must be satisfiable (a *discharged* V obligation is an alarm)
 	x.emit(st, fr, "V", "requires_sat", TFalse, fn.Blocks[0].Instrs[0])
 	x.explore(st)
+	// a guard whose callee pattern matched no call on any path guards nothing: report it as a
+	// failed obligation instead of silently proving nothing
+	if c != nil && !x.inTwin {
+		for _, cl := range c.Of("guard") {
+			lbl := labelOr(cl, mangle(cl.Args[0]))
+			if x.guardHits[lbl] == 0 {
+				x.Obls = append(x.Obls, &Obligation{Name: x.TopName + "#F6.guard." + lbl, Family: "F6", Func: x.TopName, Goal: TFalse, Pos: "?", Trace: []string{"guard pattern " + cl.Args[0] + " matched no call site on any explored path"}})
+			}
+		}
+	}
 }
 
 func (x *Exec) unsupported(f string, a ...any) {
